@@ -53,10 +53,10 @@ if ideas:
     out.append("")
     j = os.path.join(VERIF, "sensitivity", "ideas_judged.md")
     if os.path.exists(j): out.append(open(j).read())
-ben = load("results_benign.json") + load("results_benign_r2.json")
+ben = load("results_benign.json") + load("results_benign_r2.json") + load("results_benign_r3.json")
 if ben:
     nq = sum(1 for r in ben if r["status"] == "QUIET")
-    out.append("Behaviour-preserving changes (`benign/<id>/`, 78 patches from two rounds of sub-agents; every related check is run on each): %d check runs, %d quiet, %d not quiet.\n" % (len(ben), nq, len(ben) - nq))
+    out.append("Behaviour-preserving changes (`benign/<id>/`, 99 patches from three rounds of sub-agents; every related check is run on each): %d check runs, %d quiet, %d not quiet.\n" % (len(ben), nq, len(ben) - nq))
 notes = os.path.join(VERIF, "sensitivity", "notes.md")
 if os.path.exists(notes):
     out.append(open(notes).read())
